@@ -49,6 +49,7 @@ var c04Probes = []struct {
 	{"cached-caller-of-redefined-callee", []string{`func g(x) { x + 1 }`, `func f(x) { g(x) }`, `println(f(1))`, `func g(x) { x + 2 }`, `println(f(1))`}},
 	{"negative-zero-argument-shares-entry-with-zero", []string{`func inv(x) { 1 / x }`, `println(inv(0.0))`, `println(inv(-0.0))`}},
 	{"variadic-array-argument-key", []string{`func va(a, ..) { .. }`, `println(va(1, [[2, 3]]))`, `println(va(1, [2, 3]))`}},
+	{"cached-large-array-mutated-through-result", []string{`func mk(n) { [1, 2, 3, 4, 5, 6, 7, 8, 9] + [n] }`, `a = mk(1)`, `a[0] = 99`, `println(mk(1))`}},
 	{"cached-reader-of-deleted-constant", []string{`LIM = 5`, `func f(x) { x + LIM }`, `println(f(1))`, `del(LIM)`, `LIM = 7`, `println(f(1))`}},
 }
 
